@@ -34,6 +34,12 @@ where
         return Err(());
     }
 
+    // Negative (or NaN) entries would make the cumulative distribution non-monotonic, which
+    // would silently break invariants that unsafe code in the entropy models relies on.
+    if !probabilities.iter().all(|&p| p >= F::zero()) {
+        return Err(());
+    }
+
     let free_weight =
         wrapping_pow2::<Probability>(PRECISION).wrapping_sub(&probabilities.len().as_());
     let normalization = normalization.unwrap_or_else(|| probabilities.iter().copied().sum::<F>());
